@@ -48,6 +48,18 @@ check(
     "DESIGN.md §3 C02",
 )
 
+check(
+    "C03",
+    "reference-monitor",
+    "exploration",
+    "runtime monitoring: stream tap on the hasher + type-directed decoder enumerating all parses, near-pair search, global identifier->signature bucket",
+    "Each byte stream fed to sha256 is recorded per hasher instance, compared with the reference encoding and decoded back: exactly one parse, equal to the "
+    "canonical signature (injectivity up to sha256 on the generated domain); one relevant small edit per graph must change the identifier; all (identifier, signature) "
+    "pairs of a run are bucketed to expose collisions between unrelated graphs.",
+    "Trusted: sha256 (digests of nested configurations are opaque atoms), the decoder and reference in lib/xvref; domain as stated (no control characters, dict depth <= 2).",
+    "DESIGN.md §3 C03",
+)
+
 NOT_APPLICABLE = []
 
 
